@@ -8,12 +8,12 @@ bin="$here/sim/target/release/simcheck"
 fail=0
 for c in C01 C02 C03 C04 C05 C06 C07 C08 C09 C10 C11 C12 C13 C14 C15 C16 C17 C18; do
   for seed in 1 7; do
-    ref=""
+    ref=""; bad=0
     for w in 16 5 16 2; do
       out="$(VERIF_SEED=$seed VERIF_DIR=/var/tmp/selftest-scratch "$bin" "$c" --runs "${VERIF_RUNS:-40}" --workers "$w" 2>&1 | grep -E 'determinism digest|^  [0-9]+ runs' | sed -E 's/, [0-9.]+s$//' | tr '\n' ' ')"
-      if [ -z "$ref" ]; then ref="$out"; elif [ "$ref" != "$out" ]; then echo "NONDETERMINISTIC $c seed=$seed workers=$w"; echo "  ref: $ref"; echo "  got: $out"; fail=1; fi
+      if [ -z "$ref" ]; then ref="$out"; elif [ "$ref" != "$out" ]; then echo "NONDETERMINISTIC $c seed=$seed workers=$w"; echo "  ref: $ref"; echo "  got: $out"; fail=1; bad=1; fi
     done
-    echo "$c seed=$seed identical across 4 processes (workers 16,5,16,2): $(echo "$ref" | grep -o 'oplog_xor=[0-9a-f]*')"
+    [ $bad = 0 ] && echo "$c seed=$seed identical across 4 processes (workers 16,5,16,2): $(echo "$ref" | grep -o 'oplog_xor=[0-9a-f]*')"
   done
 done
 rm -rf /var/tmp/selftest-scratch
